@@ -97,6 +97,7 @@ def verify_target(args):
         out["assumed_used"] = sorted(eng.stats["assumed"])
         ax = eng.base_axioms()
         nfail = 0
+        nretry = 0
         t1 = time.time()
         flt = getattr(pm, "FAMILY_FILTER", None)
         for ob in eng.obligations:
@@ -108,8 +109,11 @@ def verify_target(args):
                                            "log": list(ob.meta.get("log", ()))})
                 continue
             v, info, secs, model = smt.check_one(ax, ob, timeout_ms)
-            if v == "undecided":
-                v2, info2, secs2, model2 = smt.check_one(ax, ob, timeout_ms * 4)       # one retry with a larger budget
+            if v == "undecided" and nretry < 2:
+                nretry += 1 if True else 0
+                v2, info2, secs2, model2 = smt.check_one(ax, ob, timeout_ms * 4)       # one retry with a larger budget (at most two
+                if v2 == "proved":                                                     # fruitless retries per function)
+                    nretry -= 1
                 secs += secs2
                 if v2 != "undecided":
                     v, info, model = v2, info2 + " (retry, 4x budget)" if v2 == "proved" else info2, model2
